@@ -266,4 +266,7 @@ def families(tier):
     fams.append(('path-dedup-2x1x1', 'vf.props.c11', 'fam_path_intersect', {'n1': 2, 'n2': 1, 'hits': 1}))
     fams.append(('bbox-degenerate-cubic', M, 'fam_bbox_contains', {'deg': 3, 'degenerate': True}))
     fams.append(('bbox-quadratic', M, 'fam_bbox_contains', {'deg': 2, 'degenerate': False}))
+    # a too small box of a genuine cubic drops crossings in the subdivision's pre-filter: the closed-form branch, sharded as in C08
+    for k in range(5):
+        fams.append(('bbox-cubic-closed-form-%d' % k, 'vf.props.c08', 'fam_minmax', {'deg': 3, 'degenerate': False, 'shard': (k, 5)}))
     return fams
